@@ -6,3 +6,4 @@ Definition k_flow_reader_read_generalized_time : pfun :=
     SSetAttr "self" "_view" (PSlice (PAttr (PName "self") "_view") (PName "consumed") PNone);
     SReturn (PName "val")
   ] |}.
+Definition k_flow_reader_read_generalized_time_defaults : list (string * pexp) := [("tag", PNone); ("header", PNone); ("hint", PNone)].
